@@ -2,7 +2,11 @@ package props
 
 import (
 	"fmt"
+	"os"
+	"path/filepath"
 	"sort"
+	"strings"
+	"time"
 
 	"github.com/go-task/task/v3/zverif/vlab"
 )
@@ -202,6 +206,83 @@ func c13Units(tier string) []*Unit {
 			return out
 		}})
 	}
+	us = append(us, c13IncludeInternalUnit())
 	sort.SliceStable(us, func(i, j int) bool { return us[i].Name < us[j].Name })
 	return us
+}
+
+// tasks that are internal because the include that brings them in says so: every combination of
+// the include's internal / flatten options and of the task's own internal flag, named on the
+// command line (202, nothing runs) and reached through deps (runs)
+func c13IncludeInternalUnit() *Unit {
+	name := "internal-through-include-options"
+	return &Unit{Name: name, Weight: 1, Custom: func(u *Unit, dir string, deadline time.Time) *vlab.UnitResult {
+		res := &vlab.UnitResult{SigCounts: map[string]int{}, Extra: map[string]any{}}
+		n := 0
+		var samples []any
+		for mask := 0; mask < 8; mask++ {
+			incInternal, flatten, own := mask&1 != 0, mask&2 != 0, mask&4 != 0
+			root := "version: '3'\nincludes:\n  inc:\n    taskfile: ./inc.yml\n"
+			if incInternal {
+				root += "    internal: true\n"
+			}
+			if flatten {
+				root += "    flatten: true\n"
+			}
+			tn := "inc:t"
+			if flatten {
+				tn = "t"
+			}
+			root += "tasks:\n  viadep:\n    deps: ['" + tn + "']\n    cmds:\n      - echo ran-viadep\n"
+			inc := "version: '3'\ntasks:\n  t:\n"
+			if own {
+				inc += "    internal: true\n"
+			}
+			inc += "    cmds:\n      - echo ran-t\n"
+			files := map[string]string{"Taskfile.yml": root, "inc.yml": inc}
+			os.RemoveAll(dir)
+			os.MkdirAll(dir, 0o755)
+			for rel, c := range files {
+				os.WriteFile(filepath.Join(dir, rel), []byte(c), 0o644)
+			}
+			internal := incInternal || own
+			tag := fmt.Sprintf("include_internal=%v:flatten=%v:task_internal=%v", incInternal, flatten, own)
+			add := func(v vlab.Violation, args []string) {
+				v.Scenario = name
+				v.Input = map[string]any{"files": files, "args": args}
+				res.SigCounts[v.Sig]++
+				if res.SigCounts[v.Sig] == 1 {
+					res.Violations = append(res.Violations, v)
+				}
+			}
+			for _, args := range [][]string{{"--silent", tn}, {"--silent", "viadep"}} {
+				so, se, rc := RunCLI(dir, nil, "", args...)
+				n++
+				ranT := strings.Contains(so, "ran-t")
+				if len(samples) < 3 {
+					samples = append(samples, map[string]any{"options": tag, "args": args, "status": rc, "stdout": so})
+				}
+				switch {
+				case args[1] == "viadep":
+					if rc != 0 || !ranT || !strings.Contains(so, "ran-viadep") {
+						add(vlab.V("C13", "spurious_block", "internal:via_deps:"+tag, fmt.Sprintf("an internal task reached through deps must run: status %d stdout %q stderr %q", rc, so, firstN(se, 120))), args)
+					}
+				case internal:
+					if ranT {
+						add(vlab.V("C13", "guarded_task_ran", "internal:direct:"+tag, "an internal task named on the command line ran its commands"), args)
+					}
+					if rc != 202 {
+						add(vlab.V("C13", "status_class", fmt.Sprintf("internal:direct:%s:got%d:want202", tag, rc), fmt.Sprintf("status %d (%s), documented class 202", rc, firstN(se, 120))), args)
+					}
+				default:
+					if rc != 0 || !ranT {
+						add(vlab.V("C13", "spurious_block", "internal:direct:"+tag, fmt.Sprintf("a task that is not internal was refused: status %d (%s)", rc, firstN(se, 120))), args)
+					}
+				}
+			}
+		}
+		res.Extra["samples"] = samples
+		res.Stats = vlab.Stats{Scenario: name, Execs: n, States: n, Transitions: n, Outcomes: 3, Exhaustive: true}
+		return res
+	}}
 }
